@@ -794,4 +794,24 @@ theorem held_intercept_swept_exactly_at_deadline (s : ISt) (height : Nat) (kv : 
 example : (let h1 : IcHtlc := ⟨11, some 6000, 5000, 130, some 77⟩
     (heldIds (irun [.intercept 1 h1, .blocks 90]).live, heldIds (irun [.intercept 1 h1, .blocks 91]).live)) = ([1], []) := by decide
 
+/-- reconstruct-from-monitors reload path: the restarted manager holds NO intercepted HTLC yet and keeps exactly the written events; the committed
+    inbound HTLCs are decoded again afterwards (`intercept` ops), and `intercepted_event_pending_until_handled` — which quantifies over op lists
+    containing `crashRebuild` as well — gives every re-intercepted HTLC its pending event -/
+theorem reconstruct_restart_starts_empty (ops : List IOp) :
+    (irun (ops ++ [.crashRebuild])).live = { held := [], queue := (irun ops).disk.queue } := by
+  have hs : irun (ops ++ [.crashRebuild]) = istep (irun ops) .crashRebuild := by simp [irun, List.foldl_append]
+  rw [hs]; simp [istep, reloadI_reconstruct]
+
+/-- decoding an HTLC again after such a restart does not duplicate its event: the equal written event is retained out before the push -/
+theorem reintercept_adds_no_duplicate (s : ISt) (id : Nat) (h : IcHtlc) (e : IcEv) (hn : (heldIds s.live).contains id = false)
+    (he : mkInterceptedEvent id h = some e) : (istep s (.intercept id h)).live.queue.count e = 1 := by
+  simp only [istep, hn, he]
+  simp [List.count_append, List.count_eq_zero]
+
+/-- non-vacuity: two HTLCs held, first event handled, manager written, restart on the reconstruct path, both decoded again: both pending once -/
+example : (let h1 : IcHtlc := ⟨11, some 6000, 5000, 130, some 77⟩; let h2 : IcHtlc := ⟨22, some 8000, 7000, 131, some 77⟩
+    let s := irun [.intercept 1 h1, .intercept 2 h2, .handle 1, .persist, .crashRebuild]
+    let s' := irun [.intercept 1 h1, .intercept 2 h2, .handle 1, .persist, .crashRebuild, .intercept 1 h1, .intercept 2 h2]
+    (heldIds s.live, s.live.queue.map (·.interceptId), heldIds s'.live, s'.live.queue.map (·.interceptId))) = ([], [2], [1, 2], [1, 2]) := by decide
+
 end Ldk.C10
